@@ -16,6 +16,7 @@ import (
 	"os"
 	"sync"
 
+	"verif/checks/smbhist"
 	ref "verif/ref/refsmbtypes"
 	"verif/vf"
 )
@@ -49,6 +50,9 @@ func run(c *vf.Ctx) {
 	dataAll(c)
 	resumeKeyAll(c)
 	dirInfoAll(c)
+	// call histories on ONE object (Set / Decode / Encode, depth 3; thorough 4): explicit-state BFS over the real objects
+	st, tr := smbhist.All(c, "C06/history", c.Pick(3, 4))
+	c.Set("object_history_bfs", map[string]any{"states": st, "transitions": tr, "ops": "Set(value k) | Decode(enc(value k)) | Encode on one object, oracle = a fresh object holding the same value"})
 }
 
 // ---------------------------------------------------------------- suffixes
